@@ -3,6 +3,7 @@ package main
 // SMT-LIB2 emission and solver processes.
 
 import (
+	"os"
 	"bufio"
 	"fmt"
 	"io"
@@ -70,7 +71,35 @@ func smtFP(b uint64) string {
 
 func smtVarName(n string) string { return "|" + strings.NewReplacer("|", "_", "\\", "_").Replace(n) + "|" }
 
+// cut variables: an atom g_k of a registered partition P (mutually exclusive guards of one lifted
+// value) is emitted as (= pidx_P k) together with the constraint (= (= pidx_P k) <definition of g_k>).
+// Exclusivity then is structural for the solver, which can decide obligations that only depend on
+// "which case of the lifted value" without re-deriving it from the inputs.
+var useCuts = os.Getenv("SYMGO_CUTS") != ""
+
+func cutAtom(t *Term) (pid int, idx int32, ok bool) {
+	if !useCuts || t.op == OpConst {
+		return 0, 0, false
+	}
+	for _, p := range t.ps {
+		if len(p.idx) != 1 {
+			continue
+		}
+		atoms := partitions[p.pid]
+		if len(atoms) < 4 || atoms[p.idx[0]] != t {
+			continue
+		}
+		if _, _, isEq := eqAtom(t); isEq {
+			continue
+		}
+		return p.pid, p.idx[0], true
+	}
+	return 0, 0, false
+}
+
 type Emitter struct {
+	theory  bool // something other than Bool / bit-vectors was emitted (strings, integers, floats, UF)
+	declCut map[int]bool
 	defined map[int]bool
 	sb      strings.Builder
 	declVar map[int]bool
@@ -78,7 +107,7 @@ type Emitter struct {
 }
 
 func newEmitter() *Emitter {
-	return &Emitter{defined: map[int]bool{}, declVar: map[int]bool{}, declUF: map[string]bool{}}
+	return &Emitter{defined: map[int]bool{}, declVar: map[int]bool{}, declUF: map[string]bool{}, declCut: map[int]bool{}}
 }
 
 func (e *Emitter) ref(t *Term) string {
@@ -103,6 +132,9 @@ func (e *Emitter) ref(t *Term) string {
 	case OpVar:
 		return smtVarName(t.s)
 	}
+	if _, _, ok := cutAtom(t); ok {
+		return "c" + strconv.Itoa(t.id)
+	}
 	return "t" + strconv.Itoa(t.id)
 }
 
@@ -121,6 +153,9 @@ func (e *Emitter) Define(root *Term) {
 			continue
 		}
 		if t.op == OpVar {
+			if t.sort != SBool && t.sort != SBV {
+				e.theory = true
+			}
 			if !e.declVar[t.id] {
 				e.declVar[t.id] = true
 				fmt.Fprintf(&e.sb, "(declare-const %s %s)\n", smtVarName(t.s), sortSMT(t.sort))
@@ -159,7 +194,25 @@ func (e *Emitter) Define(root *Term) {
 }
 
 func (e *Emitter) emitDef(t *Term) {
+	if t.sort != SBool && t.sort != SBV {
+		e.theory = true
+	}
+	switch t.op {
+	case OpInt2BV, OpUF, OpFPToInt, OpFPLt, OpFPLe, OpFPEq, OpFPIsNaN, OpIntLt, OpIntLe:
+		e.theory = true
+	case OpEq:
+		if t.args[0].sort != SBool && t.args[0].sort != SBV {
+			e.theory = true
+		}
+	}
 	fmt.Fprintf(&e.sb, "(define-fun t%d () %s %s)\n", t.id, sortSMT(t.sort), e.body(t))
+	if pid, idx, ok := cutAtom(t); ok {
+		if !e.declCut[pid] {
+			e.declCut[pid] = true
+			fmt.Fprintf(&e.sb, "(declare-const pidx%d Int)\n", pid)
+		}
+		fmt.Fprintf(&e.sb, "(define-fun c%d () Bool (= pidx%d %d))\n(assert (= c%d t%d))\n", t.id, pid, idx, t.id, t.id)
+	}
 }
 
 func (e *Emitter) nary(name string, args []*Term) string {
@@ -725,6 +778,7 @@ func runBatch(b *Batch, solvers []string, capSec int, workers int) {
 	}
 	// text generation is sequential (term store is not thread-safe for creation, reading is fine)
 	type job struct {
+		propositional bool
 		prelude string
 		obls    []*Obligation
 		qs      []string
@@ -744,13 +798,16 @@ func runBatch(b *Batch, solvers []string, capSec int, workers int) {
 		for _, a := range b.Assumptions {
 			fmt.Fprintf(&em.sb, "(assert %s)\n", em.ref(a))
 		}
-		j := job{prelude: em.sb.String(), obls: ch}
+		j := job{prelude: em.sb.String(), obls: ch, propositional: !em.theory}
 		var mv []string
 		for _, v := range b.ModelVars {
 			mv = append(mv, em.ref(v))
 		}
 		for _, o := range ch {
 			q := "(push 1)\n(assert " + em.ref(o.Formula) + ")\n(check-sat)\n"
+			if j.propositional {
+				q = "(push 1)\n(assert " + em.ref(o.Formula) + ")\n<<CHECK>>\n"
+			}
 			j.qs = append(j.qs, q)
 		}
 		_ = mv
@@ -767,7 +824,19 @@ func runBatch(b *Batch, solvers []string, capSec int, workers int) {
 			wg.Add(1)
 			go func(jb job, sk string) {
 				defer wg.Done()
-				runJob(jb.prelude, jb.obls, jb.qs, sk, capSec, mvNames, &mu)
+				qs := jb.qs
+				if jb.propositional {
+					qs = make([]string, len(jb.qs))
+					for i, q := range jb.qs {
+						if sk == "z3new" || sk == "z3" {
+							// pure Bool / bit-vector query: bit-blast and hand it to the SAT core
+							qs[i] = strings.Replace(q, "<<CHECK>>", "(check-sat-using (then simplify bit-blast sat))", 1)
+						} else {
+							qs[i] = strings.Replace(q, "<<CHECK>>", "(check-sat)", 1)
+						}
+					}
+				}
+				runJob(jb.prelude, jb.obls, qs, sk, capSec, mvNames, &mu)
 			}(jb, sk)
 		}
 	}
@@ -793,6 +862,9 @@ func runJob(prelude string, obls []*Obligation, qs []string, kind string, capSec
 		s, err = startSolver(kind)
 		if err != nil {
 			return false
+		}
+		if d := os.Getenv("SYMGO_DUMP"); d != "" {
+			os.WriteFile(fmt.Sprintf("%s/q-%s-%d.smt2", d, kind, time.Now().UnixNano()), []byte(solverPrelude(kind, capSec)+prelude+strings.Join(qs, "\n(pop 1)\n")), 0o644)
 		}
 		lines, err := s.send(solverPrelude(kind, capSec)+prelude, time.Duration(capSec+60)*time.Second)
 		if err != nil {
